@@ -77,6 +77,9 @@ class VLoop(asyncio.base_events.BaseEventLoop):
     def fd_ready(self, fd):
         self.call_soon(self._fd_fire, '_vreaders', fd)
 
+    def fd_writable(self, fd):
+        self.call_soon(self._fd_fire, '_vwriters', fd)
+
     def _write_to_self(self):
         pass
 
